@@ -582,7 +582,10 @@ func validateNode(ctx context.Context, node *mastNode, mast *Mast) {
 	for i := 0; i < len(node.Key)-1; i++ {
 		cmp, err := mast.keyOrder(node.Key[0], node.Key[1])
 		if err != nil {
-			panic(err)
+			// the comparison callback failed: nothing can be asserted
+			// about the order of the keys, and a failing callback is
+			// the caller's to report, not a reason to panic
+			break
 		}
 		if cmp >= 0 {
 			panic(fmt.Sprintf("sweet merciful crap! %v >= %v!", node.Key[0], node.Key[1]))
